@@ -399,6 +399,7 @@ pub fn main(opts: &Opts) {
                     Fault::RpcError,
                     Fault::ErrWarnOk,
                     Fault::ManyWarnErrOk,
+                    Fault::ErrLoadSuccess,
                     Fault::ErrCount,
                     Fault::WarnOk,
                     Fault::Malformed,
